@@ -292,6 +292,16 @@ func oracle(o *Op) {
 			o.Want = true
 		}
 	}
+	if _, supported := validPayloads[o.Type]; supported && !o.Want {
+		// a payload of another type's catalogue (same-data retype): it was not built for a verdict under this type
+		built := false
+		for _, p := range invalidPayloads[o.Type] {
+			built = built || p == o.Payload
+		}
+		if !built {
+			o.Want = o.Valid
+		}
+	}
 	var main []byte
 	switch o.Type {
 	case "nginx.org/jwk":
@@ -784,6 +794,18 @@ func witnesses() []Case {
 			up(x, "nginx.org/jwk", "jwk", 0), get(x), up(x, "nginx.org/oidc", "ok", 0), get(x)}},
 		{Class: "witness-retype", Ops: []Op{
 			up(x, "kubernetes.io/tls", "pairA", 0), get(x), up(x, "nginx.org/ca", "caB", 0), get(x)}},
+		// the type changes while the Data stays byte-identical (a delete + re-create observed as one update,
+		// or a manifest applied with the wrong type and then corrected): the verdict must follow the type
+		{Class: "witness-retype-same-data", Ops: []Op{
+			up(x, "kubernetes.io/tls", "pairA", 0), get(x), up(x, "nginx.org/ca", "pairA", 0), get(x),
+			up(x, "kubernetes.io/tls", "pairA", 0), get(x), up(x, "Opaque", "pairA", 0), get(x)}},
+		{Class: "witness-retype-same-data", Ops: []Op{
+			up(x, "Opaque", "pairA", 0), get(x), up(x, "kubernetes.io/tls", "pairA", 0), get(x),
+			up(x, "nginx.org/htpasswd", "jwk", 0), get(x), up(x, "nginx.org/jwk", "jwk", 0), get(x),
+			up(x, "nginx.org/htpasswd", "jwk", 0), get(x)}},
+		{Class: "witness-ctl-retype-same-data", Ops: []Op{
+			cput(x, "Opaque", "pairA", 0), start, drain, get(x), cput(x, "kubernetes.io/tls", "pairA", 0), drain, get(x),
+			cput(x, "nginx.org/ca", "pairA", 0), drain, get(x)}},
 		{Class: "witness-ctl-recreated-unsupported", Ops: []Op{
 			cput(x, "kubernetes.io/tls", "pairA", 0), drain, get(x),
 			cdel(x), cputU(x, "Opaque", "pairA", 1, 1), drain, get(x),
@@ -936,6 +958,8 @@ func genHistory(r *vh.Rng, id int) Case {
 	ops := make([]Op, 0, n)
 	salt := 0
 	uids := make([]int, len(keys)) // bumped by a delete and by a delete-less re-creation
+	lastPayload := make([]string, len(keys))
+	lastSalt := make([]int, len(keys))
 	for len(ops) < n {
 		i := r.Intn(len(keys))
 		k := keys[i]
@@ -955,6 +979,13 @@ func genHistory(r *vh.Rng, id int) Case {
 				uids[i]++ // deleted and created again; the store only sees an update carrying a new UID
 			}
 			u := up(k, types[i], pickPayload(r, types[i], r.Chance(2, 3)), s)
+			if (class == "retype" || class == "mixed") && lastPayload[i] != "" && r.Chance(1, 3) {
+				// only the type changes: the same payload with the same salt gives byte-identical Data
+				nt := vh.Pick(r, append(append([]string{}, supportedTypes...), "Opaque"))
+				types[i] = nt
+				u = up(k, nt, lastPayload[i], lastSalt[i])
+			}
+			lastPayload[i], lastSalt[i] = u.Payload, u.Salt
 			u.UID = uids[i]
 			ops = append(ops, u)
 			if r.Chance(2, 5) {
